@@ -878,11 +878,11 @@ def dict_method(I, d, name, args, kwargs):
         except TypeError:
             I.raise_("TypeError", "unhashable type")
     if name == "items":
-        return list(d.items())
+        return _DictView(d, "items")
     if name == "keys":
         return _KeysView(d)
     if name == "values":
-        return list(d.values())
+        return _DictView(d, "values")
     if name == "pop":
         k = args[0]
         if k in d:
@@ -933,9 +933,21 @@ def dict_method(I, d, name, args, kwargs):
 
 
 class _KeysView(list):
+    kind = "keys"
+
     def __init__(self, d):
         super().__init__(d.keys())
         self.d = d
+
+
+class _DictView(list):
+    """d.items() / d.values(): a snapshot list for every list-like use (len, ==, sorted, list(...)) that remembers its dict, so that
+    a `for` loop over it iterates the live dict (Interp.get_iter -> _DictIter: RuntimeError when the size changes meanwhile)"""
+
+    def __init__(self, d, kind):
+        super().__init__(d.items() if kind == "items" else d.values())
+        self.d = d
+        self.kind = kind
 
 
 def set_method(I, s, name, args, kwargs):
